@@ -24,6 +24,7 @@ const (
 	pkgRest        = "github.com/transparency-dev/witness/internal/distribute/rest"
 	pkgFeeder      = "github.com/transparency-dev/witness/internal/feeder"
 	pkgSumdb       = "github.com/transparency-dev/witness/internal/feeder/sumdb"
+	pkgOmniCmd     = "github.com/transparency-dev/witness/cmd/omniwitness"
 	pkgFeedbastion = "github.com/transparency-dev/witness/cmd/feedbastion"
 	pkgWitness     = "github.com/transparency-dev/witness/internal/witness"
 	pkgLitmus      = "github.com/transparency-dev/witness/internal/verifrt/litmus"
@@ -173,6 +174,10 @@ func init() {
 	pcpT := pcpRun
 	pcpT.OnlyThorough = true // ~4 min of string queries: thorough tier (and ./check pcp)
 	checks["C02"].Runs = append(checks["C02"].Runs, pcpT)
+	// H-MAIN: the production wiring of the SQL store (single-connection pool) and of the witness keys
+	mainRun := runSpec{Harness: pkgOmniCmd + ".VerifMainWiring", Covers: []string{"main/sql-persistence", "main/in-memory-persistence"}}
+	reg(&checkSpec{ID: "mainwiring", Runs: []runSpec{mainRun}, Assumptions: commonAssumptions})
+	checks["C05"].Runs = append(checks["C05"].Runs, mainRun)
 	// identity agreement between witness map, bastion handler and feeders (C12), through the
 	// repository's own AsLogMap / config.NewLog
 	checks["C12"].Runs = append(checks["C12"].Runs, runSpec{Harness: pkgOmni + ".VerifBastion", Quick: p("logs", 2, "maxproof", 1, "store", 0, "replay", 0), Thorough: p("logs", 3, "maxproof", 1, "store", 0, "replay", 0), Covers: []string{"bast/200", "bast/404"}})
